@@ -161,9 +161,9 @@ def replay(case, ctx):
 
 
 def plan(tier, seed):
-    n, per = (12, 500) if tier == "quick" else (15, 40000)
+    n, per = (12, 2400) if tier == "quick" else (15, 40000)
     sh = [{"kind": "mem", "kinds": [["pv"], ["pv", "tag"], ["pv", "hostile", "tag2"]][k % 3], "n": per} for k in range(n)]
-    nc, perc = (4, 12) if tier == "quick" else (16, 100)
+    nc, perc = (4, 60) if tier == "quick" else (16, 100)
     return sh + [{"kind": "cli", "n": perc} for _ in range(nc)]
 
 
